@@ -1157,8 +1157,17 @@ func (mpt *MerklePatriciaTrie) MergeDB(ndb NodeDB, root Key, deadNodes []Node) e
 	mpt.mutex.Lock()
 	defer mpt.mutex.Unlock()
 	handler := func(ctx context.Context, key Key, node Node) error {
-		_, _, err := mpt.insertNode(nil, node)
-		return err
+		// The nodes of the other db are addressed by hashes that include their
+		// own origin: keep it (insertNode would stamp the trie version into the
+		// other db's node and store it under a different key).
+		nd := node.CloneNode()
+		ckey := nd.GetHashBytes()
+		if err := mpt.db.PutNode(ckey, nd); err != nil {
+			return err
+		}
+		mpt.cache.Set(string(ckey), nd)
+		mpt.ChangeCollector.AddChange(nil, nd)
+		return nil
 	}
 	mpt.root = root
 	mpt.deleteNodes = append(mpt.deleteNodes, deadNodes...)
